@@ -304,6 +304,13 @@ func (g treeGen) decodeInput(typ string) any {
 	r := g.ctx.Rng
 	keys := []string{"A", "b", "k.1", "host", "x-y", "K", ""}
 	switch typ {
+	case "ShellCommand":
+		switch v := g.decodeInput("StringList").(type) {
+		case string:
+			return []any{v}
+		default:
+			return v
+		}
 	case "StringList", "StringOrNumberList", "HealthCheckTest":
 		switch r.Intn(4) {
 		case 0:
@@ -753,6 +760,13 @@ func runC03(ctx *core.Ctx) {
 		ctx.Count("ip-curated")
 		ctx.Add("c03.validIP", sArg{s})
 	}
+
+	// tree.Path.Next vs TPath.next vs the kernel-reducible TPath.nextK: every string over a small alphabet at the root and below it
+	allStrings([]string{"a", ".", "👻", "é", "[]", "x-"}, ctx.Pick(4, 6), func(s string) {
+		ctx.Count("pathnext-exhaustive")
+		ctx.Add("c03.pathNext", map[string]any{"p": []string{}, "part": s})
+		ctx.Add("c03.pathNext", map[string]any{"p": []string{"services", "a"}, "part": s})
+	})
 
 	// 2. spec oracles, exhaustive over the bounded ASTs of DESIGN §6 C03
 	nPortAst := 0
